@@ -289,7 +289,9 @@ def run_case(ctx, rig, key_words, plan=None, actions=None, fail=None, typed=Fals
 SWEEP_RUNS = {"Snake": 1024, "Game2048": 1024, "Knapsack": 2048, "Connector": 256, "Maze": 1024, "Minesweeper": 1024,
               "Tetris": 512, "LevelBasedForaging": 256, "TSP": 2048, "Cleaner": 512, "CVRP": 2048, "GraphColoring": 1024,
               "SlidingTilePuzzle": 1024, "RubiksCube": 512, "JobShop": 512, "FlatPack": 512, "MultiCVRP": 256,
-              "RobotWarehouse": 128, "Sokoban": 128, "Sudoku": 256, "MMST": 64}
+              "RobotWarehouse": 128, "Sokoban": 128, "Sudoku": 256, "MMST": 256}
+# sweep entries where the short entry ends every episode after two or three steps (nothing but the time limit happens)
+SWEEP_ENTRY = {"MMST": "n12e18a3k2t30", "RobotWarehouse": "s1x3h2a4r1q2t60", "LevelBasedForaging": "g5a3f1v5l2nVNp0t40"}
 SWEEP_QUICK = ("Snake", "Game2048", "Knapsack", "Maze", "Minesweeper", "TSP", "Cleaner", "Tetris", "RubiksCube", "SlidingTilePuzzle")
 
 
@@ -433,10 +435,11 @@ def work_items(tier, flt):
     names = list(dict.fromkeys(QUICK_ENVS + list(WIN_QUICK))) if tier == "quick" else envs.ENV_NAMES
     items = []
     for i, env in enumerate(envs.select_envs([e for e in SWEEP_RUNS if tier != "quick" or e in SWEEP_QUICK], flt)):
-        if flt and flt.get("entry") and SHORT_ENTRY[env] not in flt["entry"]:
+        s_entry = SWEEP_ENTRY.get(env, SHORT_ENTRY[env])
+        if flt and flt.get("entry") and s_entry not in flt["entry"]:
             continue
         for flag in ((bool(i % 2),) if tier == "quick" else (False, True)):
-            items.append({"kind": "sweep", "env": env, "entry": SHORT_ENTRY[env], "flag": flag, "runs": SWEEP_RUNS[env],
+            items.append({"kind": "sweep", "env": env, "entry": s_entry, "flag": flag, "runs": SWEEP_RUNS[env],
                           "batches": 1 if tier == "quick" else 3, "cost": 3})
     for env in envs.select_envs(names, flt):
         win = [e for e in WIN_ENTRY.get(env, []) if e != SHORT_ENTRY[env] and (tier != "quick" or env in WIN_QUICK)]
